@@ -53,7 +53,7 @@ META = {
          'create_certificate: flags, multi-signature, self-verification < store < mark; certificate field provenance; who stores certificates; Idle->Ready guards; epoch-initialisation order; gap test before walk; strict pruning threshold of open messages',
          'the invariant over all interleavings; SQL uniqueness; master-certificate query'),
  'C15': ('static analysis: effect ordering + provenance + error-mapping + lock pairing',
-         'verify < insert < mark order; nothing persisted on the no-certificate return; artifact record fields from the inputs; artifact only with the sealed certificate; ReInit/KeepState mapping; entity lock released on every exit of the spawned task',
+         'verify < insert < mark order; nothing persisted on the no-certificate return; artifact record fields from the inputs; artifact only with the sealed certificate; ReInit/KeepState mapping; entity lock released on every exit of the spawned task; the restart-time clean-up keeps the current epoch\'s open messages (SQL operator)',
          'what a restart finds after each cut; progress'),
  'C16': ('static analysis: effect ordering + provenance + influence-on-control + who-may-call',
          'verify < store on an open non-expired message; stored = verified signature; key looked up by slot in the epoch registration; certificate signer filter; ingestion paths; DMQ sender pairing; party-label binding (known finding)',
@@ -65,7 +65,7 @@ META = {
          'ancillary: temp-dir unpack < verify < move, temp dir removed on every exit; ValidatedAncillaryManifest only from verify (data hashes, signature present, configured key); only listed files moved; immutable archives unpacked into the target (known finding)',
          'archive-parser behaviour; fault injection while moving files'),
  'C20': ('static analysis: provenance + effect ordering + who-may-call/construct + constant relations',
-         'offered beacons pass the already-signed filter; sign < publish < mark with errors propagated; signing only from ReadyToSign, entered after registration and can_sign; epoch change leaves it; offset algebra; offsets at the key-rotation sites',
+         'offered beacons pass the already-signed filter; sign < publish < mark with errors propagated; signing only from ReadyToSign, entered after registration and can_sign; epoch change leaves it; offset algebra; offsets at the key-rotation sites; epoch roles (node vs aggregator epoch, registration vs aggregation configuration) of every input of the signer\'s epoch data',
          'exactly-once under faults; acceptance by the aggregator'),
 }
 
